@@ -131,6 +131,12 @@ class Exec(ExprMixin, StmtMixin, CallMixin, ContractMixin):
             if vty is None:
                 raise Unsupported("contract of %s gives no type for *%s" % (qualname, vn))
             env[vn] = self.fresh_param(st, vn, vty)         # the tuple of extra positional arguments, as a sequence
+        if fdef.args.kwarg is not None:
+            kn = fdef.args.kwarg.arg
+            kty = decl.params.get(kn)
+            if kty is None:
+                raise Unsupported("contract of %s gives no type for **%s" % (qualname, kn))
+            env[kn] = self.fresh_param(st, kn, kty)         # the dictionary of extra keyword arguments
         for pre in decl.opts.get("distinct", []):
             a, b = pre
             st.assume(env[a].t != env[b].t)
